@@ -289,6 +289,16 @@ def check_pair(ctx, case):
         for name, fn in (("sd", tc.symmetric_difference), ("wrf", tc.weighted_robinson_foulds_distance), ("eu", tc.euclidean_distance)):
             v = ctx.call("C04.self_distance:" + name, fn, t1, t1)
             ctx.check(close(v, 0.0, o["scale"]), "distance_to_itself_is_zero", "C04.self_distance:" + name, lambda: "%s(t,t)=%r" % (name, v))
+        # encodings made by the caller with the basal bifurcation of an unrooted tree kept (the two basal edges then carry
+        # one and the same split): the split COUNTS are those of the split sets all the same
+        ca = shapes.build_tree(spec_with_lengths(rt1), ns, taxa, is_rooted=rooted_flag)
+        cb_ = shapes.build_tree(spec_with_lengths(rt2), ns, taxa, is_rooted=rooted_flag)
+        for t_ in (ca, cb_):
+            t_.encode_bipartitions(collapse_unrooted_basal_bifurcation=False)
+        sdk = ctx.call("C04.sd_caller_encoded", tc.symmetric_difference, ca, cb_, is_bipartitions_updated=True)
+        fpk = ctx.call("C04.fpfn_caller_encoded", tc.false_positives_and_negatives, ca, cb_, is_bipartitions_updated=True)
+        ctx.check(sdk == o["sd"] and tuple(fpk) == (o["fp"], o["fn"]), "counts_on_caller_made_encodings", "C04.caller_encoded",
+                  lambda: "sd %r want %r, fp/fn %r want %r; rooted=%r t1=%s t2=%s" % (sdk, o["sd"], fpk, (o["fp"], o["fn"]), rooted_flag, rt1.canon(), rt2.canon()))
         # repeat with the (now current) encodings
         w3 = ctx.call("C04.wrf_updated", tc.weighted_robinson_foulds_distance, t1, t2, is_bipartitions_updated=True)
         e3 = ctx.call("C04.eu_updated", tc.euclidean_distance, t1, t2, is_bipartitions_updated=True)
